@@ -22,7 +22,8 @@ RULE = (
     "program's own imports the remaining modules are imported in a canonical order, so every program is "
     "a full import order with the given prefix. Oracle: every import succeeds (exception text "
     "captured); the dump of every chartparse module's public names with (type, __module__, "
-    "__qualname__) and the identity partition 'which (module, name) pairs are bound to the same "
+    "__qualname__, and for plain data such as tuples, lists, dicts and constants the value itself, element "
+    "order included) and the identity partition 'which (module, name) pairs are bound to the same "
     "object' equals the dump of the reference order (chartparse.chart first); and what each from-import "
     "statement binds in the client's namespace is the same object as when the statement runs after the "
     "whole package was imported. Non-trivial iff the "
@@ -44,6 +45,21 @@ job = json.load(sys.stdin)
 out = {"ok": True}
 done = []
 bound = []
+def _val(o, depth):
+    # the VALUE of plain public data (registries, tables, constants), element order included
+    if depth > 3:
+        return "..."
+    if isinstance(o, (int, float, str, bool, bytes, type(None))):
+        return repr(o)[:200]
+    if isinstance(o, (tuple, list)):
+        return [type(o).__name__] + [_val(x, depth + 1) for x in o[:50]]
+    if isinstance(o, (set, frozenset)):
+        return [type(o).__name__] + sorted(str(_val(x, depth + 1)) for x in list(o)[:50])
+    if isinstance(o, dict):
+        return ["dict"] + [[str(_val(k, depth + 1)), _val(v, depth + 1)] for k, v in list(o.items())[:50]]
+    if isinstance(o, (type, types.FunctionType, types.ModuleType)):
+        return _desc(o)
+    return type(o).__name__
 def _desc(o):
     if isinstance(o, types.ModuleType):
         return "module:" + o.__name__
@@ -76,7 +92,7 @@ else:
                 continue
             o = getattr(mod, n)
             names[modname + ":" + n] = [type(o).__name__, str(getattr(o, "__module__", None)),
-                                        str(getattr(o, "__qualname__", getattr(o, "__name__", None)))]
+                                        str(getattr(o, "__qualname__", getattr(o, "__name__", None))), _val(o, 0)]
             if isinstance(o, (type, types.FunctionType, types.ModuleType, typing.TypeVar)) or \
                     type(o).__name__ in ("NewType", "Logger", "_Feature"):
                 ident.setdefault(id(o), []).append(modname + ":" + n)
